@@ -51,27 +51,58 @@ func initTuple() {
 			var start int
 			end := lengthVal.AsInt() - 1
 
+			// negative bounds count from the end; they are resolved before an exclusive
+			// bound is moved by one, so that the adjustment cannot flip the sign of an index
+			// (`0..<0` would otherwise end at -1, ie. at the last element)
+			bound := func(b value.Value, offset int) (int, value.Value) {
+				i := b.AsInt()
+				if i < 0 {
+					var err value.Value
+					i, err = value.NormalizeArrayIndex(i, length)
+					if err.IsNotUndefined() {
+						return 0, err
+					}
+				}
+				return i + offset, value.Undefined
+			}
+
 			switch r := rangeVal.(type) {
 			case *value.ClosedRange:
-				start = r.Start.AsInt()
-				end = r.End.AsInt()
+				start, err = bound(r.Start, 0)
+				if err.IsUndefined() {
+					end, err = bound(r.End, 0)
+				}
 			case *value.LeftOpenRange:
-				start = r.Start.AsInt() + 1
-				end = r.End.AsInt()
+				start, err = bound(r.Start, 1)
+				if err.IsUndefined() {
+					end, err = bound(r.End, 0)
+				}
 			case *value.RightOpenRange:
-				start = r.Start.AsInt()
-				end = r.End.AsInt() - 1
+				start, err = bound(r.Start, 0)
+				if err.IsUndefined() {
+					end, err = bound(r.End, -1)
+				}
 			case *value.OpenRange:
-				start = r.Start.AsInt() + 1
-				end = r.End.AsInt() - 1
+				start, err = bound(r.Start, 1)
+				if err.IsUndefined() {
+					end, err = bound(r.End, -1)
+				}
 			case *value.BeginlessOpenRange:
-				end = r.End.AsInt() - 1
+				end, err = bound(r.End, -1)
 			case *value.BeginlessClosedRange:
-				end = r.End.AsInt()
+				end, err = bound(r.End, 0)
 			case *value.EndlessOpenRange:
-				start = r.Start.AsInt() + 1
+				start, err = bound(r.Start, 1)
 			case *value.EndlessClosedRange:
-				start = r.Start.AsInt()
+				start, err = bound(r.Start, 0)
+			}
+			if err.IsNotUndefined() {
+				return value.Undefined, err
+			}
+
+			if end < start && start <= length && end >= -1 {
+				// the range contains no index
+				return value.Ref(&value.ArrayTupleOfValue{}), value.Undefined
 			}
 
 			start, err = value.NormalizeArrayIndex(start, length)
